@@ -42,6 +42,36 @@ const SLACK_MS: u64 = 200; // scheduling slack allowed on top of the time-out
 const GUARD_MS: u64 = 400; // outer guard: no answer by then = `hang`
 const HOLD_MS: u64 = 5000; // a peer closes a connection after this long at the latest (safety net)
 const ATTEMPTS: usize = 3; // a case whose observation is off its expectation is re-observed (timing noise)
+
+/// How slow this machine is right now, measured with the very work that delays a time-out of an
+/// ldaps / StartTLS set-up: the synchronous construction of the TLS connector inside the timed future
+/// (`TlsConnector::builder().build()` loads the trust store; 15-60 ms on an idle machine, several
+/// hundred ms when every core is busy).  Measured only when an observation came out late; the time
+/// limits stretch with it, so that a loaded machine makes the lane slower, not wrong - a set-up that
+/// really hangs still never comes back, and a time-out that is not applied is still a `hang`.
+static LAG_MS: std::sync::atomic::AtomicU64 = std::sync::atomic::AtomicU64::new(0);
+
+fn probe_lag() -> u64 {
+    let t = std::time::Instant::now();
+    let _ = native_tls::TlsConnector::builder().build();
+    let ms = t.elapsed().as_millis() as u64;
+    let prev = LAG_MS.load(std::sync::atomic::Ordering::Relaxed);
+    let now = ms.max(prev / 2);
+    LAG_MS.store(now, std::sync::atomic::Ordering::Relaxed);
+    now
+}
+
+fn lag() -> u64 {
+    LAG_MS.load(std::sync::atomic::Ordering::Relaxed)
+}
+
+fn slack_ms() -> u64 {
+    SLACK_MS + 4 * lag()
+}
+
+fn guard_ms() -> u64 {
+    GUARD_MS + 8 * lag()
+}
 const PRE_UNIX_ID: usize = 99;
 
 // ---------------------------------------------------------------------------------------------
@@ -529,7 +559,7 @@ fn observe(w: &World, c: &Case, api: Api) -> Obs {
             let est = &mut est_ms;
             let r = guarded(AssertUnwindSafe(|| {
                 rt.block_on(async {
-                    let r = tokio::time::timeout(Duration::from_millis(GUARD_MS), LdapConnAsync::with_settings(settings, &url)).await;
+                    let r = tokio::time::timeout(Duration::from_millis(guard_ms()), LdapConnAsync::with_settings(settings, &url)).await;
                     *est = t0.elapsed().as_millis() as u64;
                     match r {
                         Err(_) => Raw::Hang,
@@ -563,7 +593,7 @@ fn observe(w: &World, c: &Case, api: Api) -> Obs {
                 }));
                 let _ = tx.send(r);
             });
-            match rx.recv_timeout(Duration::from_millis(GUARD_MS)) {
+            match rx.recv_timeout(Duration::from_millis(guard_ms())) {
                 Ok(Ok((raw, est))) => {
                     est_ms = est;
                     Ok(raw)
@@ -1129,11 +1159,17 @@ pub fn run(thorough: bool, mut rng: Rng, mut out: Out) {
             }
             let mut obs = observe(&w, c, api);
             for _ in 1..ATTEMPTS {
-                let late = c.timeout.map(|t| obs.elapsed_ms > t + SLACK_MS).unwrap_or(false);
+                let late = c.timeout.map(|t| obs.elapsed_ms > t + slack_ms()).unwrap_or(false);
                 if obs.panicked || (obs.text == guide && !late) {
                     break;
                 }
                 out.stat("reobserved");
+                if late || obs.text.starts_with("hang") {
+                    // late, or no answer within the guard: find out how slow the machine is before judging
+                    if probe_lag() >= 150 {
+                        out.stat("machine-loaded");
+                    }
+                }
                 obs = observe(&w, c, api);
             }
             if std::env::var("SETUP_TRACE").is_ok() {
@@ -1193,8 +1229,8 @@ pub fn run(thorough: bool, mut rng: Rng, mut out: Out) {
                 // "a connection timeout bounds the whole establishment" — every scheme, ldapi included
                 out.r(
                     &format!("setup.timeout-bounds {}", desc),
-                    obs.panicked || obs.elapsed_ms <= t + SLACK_MS,
-                    &format!("establishment took {} ms with conn_timeout {} ms: {}", obs.elapsed_ms, t, obs.text),
+                    obs.panicked || obs.elapsed_ms <= t + slack_ms(),
+                    &format!("establishment took {} ms with conn_timeout {} ms (slack {} ms; TLS connector construction currently takes {} ms): {}", obs.elapsed_ms, t, slack_ms(), lag(), obs.text),
                 );
                 if obs.text.starts_with("timeout") {
                     out.r(&format!("setup.timeout-not-early {}", desc), obs.elapsed_ms + 2 >= t, &format!("Timeout after {} ms < {} ms", obs.elapsed_ms, t));
